@@ -34,7 +34,10 @@
 #include <igris/util/verif_point.h>
 
 #include <algorithm>
+#include <atomic>
+#include <condition_variable>
 #include <deque>
+#include <dlfcn.h>
 #include <fcntl.h>
 #include <linux/futex.h>
 #include <map>
@@ -61,6 +64,7 @@ struct Slot
     unsigned long seq; // arrival stamp
     int cnt;           // syslock_counter() of the thread at arrival
     bool pending;      // left its point, did not arrive anywhere yet
+    bool nocv;         // inside event::wait(0): the expired wait passes through futex() without sleeping
 };
 static Slot slot[MAXT];
 static int nthreads = 0;
@@ -69,6 +73,7 @@ static int sched_word = 0;
 static thread_local int my_t = -1;
 
 // oracle bookkeeping (NOTSAN side)
+static const void *shared_ev = nullptr; // the shared event of an `e` case (alive for the whole case)
 static const void *live_ev[MAXT]; // event object of thread t while inside wait_current_schedee
 static const void *signalled[64];
 static int nsignalled = 0;
@@ -97,7 +102,9 @@ static char hook_code(const char *name)
         {"wait.enqueue", 'q'}, {"event.wait.lock", 'w'}, {"event.wait.cv", 'c'}, {"event.wait.unlock", 'u'},
         {"wait.return", 'r'}, {"unwait.unlink", 'k'}, {"event.signal.lock", 's'}, {"event.signal.unlock", 't'},
         {"event.signal.notify", 'n'}, {"sq.push.wait", 'a'}, {"sq.pop.wait", 'a'}, {"sq.size.wait", 'a'},
-        {"sq.push.post", 'p'}, {"sq.pop.post", 'g'}, {"sq.size.post", 'z'}};
+        {"sq.push.post", 'p'}, {"sq.pop.post", 'g'}, {"sq.size.post", 'z'},
+        {"event.twait.lock", 'd'}, {"event.twait.cv", 'e'}, {"event.twait.unlock", 'f'},
+        {"event.reset.lock", 'x'}, {"event.reset.unlock", 'y'}};
     for (auto &e : tab)
         if (!strcmp(e.n, name))
             return e.c;
@@ -120,6 +127,21 @@ NOTSAN static void park(int t, char code, const void *obj, int cnt)
                 snprintf(b, sizeof b, "mutual exclusion: threads %d (count %d) and %d (count %d) hold the system lock together", t, cnt, u, slot[u].cnt);
                 oracle_fail(b);
             }
+    // --- oracle: nobody passes event.wait unless its event was signalled
+    // (a spurious return of the condition variable must not get through)
+    if (code == 'u')
+    {
+        bool sig = false;
+        for (int i = 0; i < nsignalled; i++)
+            if (signalled[i] == obj)
+                sig = true;
+        if (!sig)
+        {
+            char b[200];
+            snprintf(b, sizeof b, "spurious wake-up: thread %d passed event.wait although nobody signalled its event (it is still in the wait queue)", t);
+            oracle_fail(b);
+        }
+    }
     if (code == 'q')
     {
         live_ev[t] = obj; // a new event object (possibly at the address of an earlier one)
@@ -137,7 +159,7 @@ NOTSAN static void park(int t, char code, const void *obj, int cnt)
     // is still inside wait_current_schedee.
     if (code == 's' || code == 't' || code == 'n')
     {
-        bool alive = false;
+        bool alive = (obj == shared_ev);
         for (int u = 0; u < nthreads; u++)
             if (live_ev[u] == obj)
                 alive = true;
@@ -166,6 +188,14 @@ NOTSAN static void mark_done(int t)
     __atomic_store_n(&sched_word, 1, __ATOMIC_RELEASE);
     futex(&sched_word, FUTEX_WAKE, 1);
 }
+NOTSAN static void set_shared_ev(const void *e) { shared_ev = e; }
+NOTSAN static void set_nocv(int t, bool v) { slot[t].nocv = v; }
+// a point of the harness itself (before a call that has no point of its own)
+static void hpoint(char code, const void *obj)
+{
+    if (my_t >= 0)
+        park(my_t, code, obj, syslock_counter());
+}
 NOTSAN static void set_ktid(int t) { slot[t].ktid = (int)syscall(SYS_gettid); }
 NOTSAN static void event_dead(int t) { live_ev[t] = nullptr; }
 
@@ -175,8 +205,38 @@ static size_t prim_size(char code)
     {
     case 'L': case 'R': return sizeof(std::recursive_mutex);
     case 'a': return sizeof(igris::semaphore);
-    case 'w': case 'c': case 's': return sizeof(igris::event);
+    case 'w': case 'c': case 's': case 'd': case 'e': case 'x': case 'i': return sizeof(igris::event);
     default: return 0;
+    }
+}
+
+// ---------------------------------------------------------------------------
+// spurious returns of the condition-variable wait (POSIX permits them).
+// The scheduler produces one on command: it broadcasts on the waiter's
+// condition variable WITHOUT setting the flag — for the waiter this is
+// indistinguishable from a spurious return of pthread_cond_wait.  The
+// broadcast goes to glibc directly (not through TSan's interceptor): like
+// everything the scheduler does it must stay invisible to the race detector.
+// ---------------------------------------------------------------------------
+struct EvMirror // layout of igris::event (its members are private)
+{
+    bool flag;
+    std::mutex m;
+    std::condition_variable c;
+};
+static_assert(sizeof(EvMirror) == sizeof(igris::event), "igris::event layout changed");
+typedef int (*cond_fn)(pthread_cond_t *);
+static cond_fn real_broadcast = nullptr;
+static void init_real_broadcast()
+{
+    void *h = dlopen("libc.so.6", RTLD_LAZY | RTLD_NOLOAD);
+    if (!h)
+        h = dlopen("libc.so.6", RTLD_LAZY);
+    real_broadcast = h ? (cond_fn)dlsym(h, "pthread_cond_broadcast") : nullptr;
+    if (!real_broadcast)
+    {
+        fprintf(stderr, "C20 harness: cannot resolve glibc's pthread_cond_broadcast\n");
+        abort();
     }
 }
 
@@ -203,6 +263,8 @@ NOTSAN static bool asleep_on_primitive(int t)
     unsigned long lo = (unsigned long)s.obj;
     if (a0 < lo || a0 >= lo + sz)
         return false;
+    if (s.nocv && a0 >= lo + offsetof(EvMirror, c))
+        return false; // a zero time-out never sleeps in the condition variable (it may be seen inside futex() on its way out)
     snprintf(path, sizeof path, "/proc/self/task/%d/stat", s.ktid);
     fd = open(path, O_RDONLY);
     if (fd < 0)
@@ -214,6 +276,51 @@ NOTSAN static bool asleep_on_primitive(int t)
     buf[n] = 0;
     char *p = strrchr(buf, ')');
     return p && p[1] == ' ' && p[2] == 'S';
+}
+
+NOTSAN static bool mirror_flag(const void *e) { return ((const EvMirror *)e)->flag; }
+// address the thread sleeps on in futex(), 0 if it is not in futex()
+NOTSAN static unsigned long futex_addr(int t)
+{
+    char path[64], buf[256];
+    snprintf(path, sizeof path, "/proc/self/task/%d/syscall", slot[t].ktid);
+    int fd = open(path, O_RDONLY);
+    if (fd < 0)
+        return 0;
+    ssize_t n = read(fd, buf, sizeof buf - 1);
+    close(fd);
+    if (n <= 0)
+        return 0;
+    buf[n] = 0;
+    unsigned long nr = 0, a0 = 0;
+    if (sscanf(buf, "%lu %lx", &nr, &a0) != 2 || nr != SYS_futex)
+        return 0;
+    return a0;
+}
+// asleep inside the condition variable of its own event (not on the event's mutex)
+NOTSAN static bool asleep_in_cv(int t)
+{
+    if (__atomic_load_n(&slot[t].st, __ATOMIC_ACQUIRE) != RUNNING || (slot[t].hook != 'c' && slot[t].hook != 'e') || !asleep_on_primitive(t))
+        return false;
+    const EvMirror *m = (const EvMirror *)slot[t].obj;
+    unsigned long a = futex_addr(t), lo = (unsigned long)&m->c;
+    return a >= lo && a < lo + sizeof(m->c);
+}
+// number of voluntary context switches of thread t (it grows by one each time the thread goes to sleep)
+NOTSAN static long nvcsw(int t)
+{
+    char path[64], buf[2048];
+    snprintf(path, sizeof path, "/proc/self/task/%d/status", slot[t].ktid);
+    int fd = open(path, O_RDONLY);
+    if (fd < 0)
+        return -1;
+    ssize_t n = read(fd, buf, sizeof buf - 1);
+    close(fd);
+    if (n <= 0)
+        return -1;
+    buf[n] = 0;
+    const char *p = strstr(buf, "\nvoluntary_ctxt_switches:");
+    return p ? atol(p + 26) : -1;
 }
 
 static double now_s()
@@ -261,6 +368,57 @@ NOTSAN static bool quiesce()
     }
 }
 
+// make the condition-variable wait of thread t (asleep in it) return without
+// the flag having been set; wait until the thread has slept again somewhere
+// (in the condition variable: predicate loop; on the event mutex: a waker
+// holds it) or arrived at a point (it got through)
+// the threads asleep in the condition variable of event `obj`, with their sleep counters
+struct Sleepers
+{
+    bool was[MAXT];
+    long v0[MAXT];
+};
+NOTSAN static void note_sleepers(const void *obj, Sleepers &sl)
+{
+    for (int u = 0; u < nthreads; u++)
+    {
+        sl.was[u] = asleep_in_cv(u) && slot[u].obj == obj;
+        sl.v0[u] = sl.was[u] ? nvcsw(u) : 0;
+    }
+}
+// after a broadcast: wait until each of them has woken and has slept again
+// somewhere (in the condition variable: predicate loop; on the event mutex: a
+// waker holds it) or arrived at a point (it got through)
+NOTSAN static bool wait_woken(const Sleepers &sl)
+{
+    double deadline = now_s() + 20.0;
+    for (;;)
+    {
+        bool all = true;
+        for (int u = 0; u < nthreads; u++)
+            if (sl.was[u] && __atomic_load_n(&slot[u].st, __ATOMIC_ACQUIRE) == RUNNING &&
+                !(asleep_on_primitive(u) && nvcsw(u) > sl.v0[u]))
+                all = false;
+        if (all)
+            break;
+        if (now_s() > deadline)
+            return false;
+        timespec ts = {0, 20000};
+        nanosleep(&ts, nullptr);
+    }
+    return quiesce();
+}
+// make the condition-variable wait of thread t (asleep in it) return without
+// the flag having been set (on a shared event the broadcast reaches every sleeper)
+NOTSAN static bool spur_wake(int t)
+{
+    Sleepers sl;
+    note_sleepers(slot[t].obj, sl);
+    EvMirror *m = (EvMirror *)slot[t].obj;
+    real_broadcast(m->c.native_handle());
+    return wait_woken(sl);
+}
+
 NOTSAN static int get_st(int t) { return __atomic_load_n(&slot[t].st, __ATOMIC_ACQUIRE); }
 NOTSAN static Slot get_slot(int t) { return slot[t]; }
 NOTSAN static void set_pending(int t, bool v) { slot[t].pending = v; }
@@ -275,6 +433,7 @@ NOTSAN static void reset_slots(int n)
 {
     memset(slot, 0, sizeof slot);
     memset(live_ev, 0, sizeof live_ev);
+    shared_ev = nullptr;
     nsignalled = 0;
     nthreads = n;
     arrivals = 0;
@@ -337,6 +496,9 @@ struct Case
     std::vector<std::vector<Op>> prog;
     igris::dlist_base *head;
     igris::safe_queue<long> *q;
+    igris::event *E;     // `e` cases: one event and one semaphore shared by all threads
+    igris::semaphore *S;
+    bool ecase;
     ThreadLog log[MAXT];
 };
 
@@ -382,18 +544,37 @@ static void thread_main(Case *c, int t)
         case 'P': c->q->push(op.v); break;
         case 'G': log_add(c, t, "g%ld,", c->q->pop()); break;
         case 'Z': log_add(c, t, "z%ld,", (long)c->q->size()); break;
+        // ---- shared event / semaphore (`e` cases)
+        case 'E': c->E->wait(); log_add(c, t, "e%ld,", 1); break;
+        case 'T':
+        {
+            set_nocv(t, op.v == 0);
+            bool r = op.v ? c->E->wait(std::chrono::hours(1)) : c->E->wait(std::chrono::seconds(0));
+            set_nocv(t, false);
+            log_add(c, t, "e%ld,", (long)r);
+            break;
+        }
+        case 'N': log_add(c, t, "n%ld,", (long)c->E->signal()); break;
+        case 'C': log_add(c, t, "r%ld,", (long)c->E->reset()); break;
+        case 'I': hpoint('i', c->E); log_add(c, t, "i%ld,", (long)c->E->isset()); break;
+        case 'w': hpoint('a', c->S); c->S->wait(); break;
+        case 'p': hpoint('b', c->S); c->S->post(); break;
+        case 'y': hpoint('b', c->S); c->S->trywait(); break;
+        case 'v': hpoint('b', c->S); log_add(c, t, "v%ld,", (long)c->S->getvalue()); break;
         }
         c->log[t].ops_done++;
     }
-    log_add(c, t, "c%ld", (long)syslock_counter());
+    if (!c->ecase)
+        log_add(c, t, "c%ld", (long)syslock_counter());
     my_t = -1;
     mark_done(t);
 }
 
 static bool parse_case(const std::vector<std::string> &w, Case &c, std::vector<long> &init, std::string &sched)
 {
-    if (w.size() != 4 || w[0] != "c")
+    if (w.size() != 4 || (w[0] != "c" && w[0] != "e"))
         return false;
+    c.ecase = (w[0] == "e");
     std::string cur;
     std::vector<std::string> progs;
     for (char ch : w[1] + "/")
@@ -445,6 +626,10 @@ static void run_case(const std::vector<std::string> &w, hv::out &o)
     tlog = c.log;
     c.head = new igris::dlist_base();
     c.q = new igris::safe_queue<long>();
+    c.E = new igris::event();
+    c.S = new igris::semaphore(1);
+    if (c.ecase)
+        set_shared_ev(c.E);
     for (long x : init)
         c.q->push(x); // my_t < 0: points are no-ops here
     std::vector<std::thread> &th = *new std::vector<std::thread>();
@@ -457,6 +642,22 @@ static void run_case(const std::vector<std::string> &w, hv::out &o)
     if (!quiesce())
         hang = true;
 
+    auto check_multi = [&]() {
+        // two threads asleep on the same primitive: the order in which the
+        // kernel lets them through is not ours to choose -> stop the case
+        for (int u = 0; u < n; u++)
+            for (int v = u + 1; v < n; v++)
+                if (get_st(u) == RUNNING && get_st(v) == RUNNING)
+                {
+                    Slot a = get_slot(u), b = get_slot(v);
+                    auto cls = [](char k) { return k == 'R' ? 'L' : (k == 'w' || k == 'c' || k == 's' || k == 'd' || k == 'e' || k == 'x' || k == 'i') ? 'e' : k; };
+                    // shared event: a thread asleep in the condition variable does not compete for the mutex
+                    if (c.ecase && (asleep_in_cv(u) || asleep_in_cv(v)))
+                        continue;
+                    if (cls(a.hook) == cls(b.hook) && a.obj == b.obj)
+                        multipend = true;
+                }
+    };
     auto grant = [&](int t) {
         if (t >= n || get_st(t) != PARKED)
         {
@@ -472,8 +673,21 @@ static void run_case(const std::vector<std::string> &w, hv::out &o)
             seq0[u] = s.seq;
         }
         char h = get_slot(t).hook;
+        if (c.ecase && h == 'e' && c.prog[t][read_ops_done(t)].v == 0 && !mirror_flag(c.E))
+        {
+            // a zero time-out releases the event mutex and takes it again: with
+            // another thread asleep on that mutex the kernel decides who gets it
+            for (int u = 0; u < n; u++)
+                if (u != t && get_st(u) == RUNNING && !asleep_in_cv(u) && get_slot(u).obj == (const void *)c.E)
+                    multipend = true;
+            if (multipend)
+                return;
+        }
+        Sleepers sl;
+        if (h == 'n')
+            note_sleepers(get_slot(t).obj, sl); // notify_all: the sleepers must be seen to have left the condition variable
         release(t);
-        if (!quiesce())
+        if (!quiesce() || (h == 'n' && !wait_woken(sl)))
         {
             hang = true;
             return;
@@ -502,17 +716,39 @@ static void run_case(const std::vector<std::string> &w, hv::out &o)
             trace += "+" + std::to_string(pr.second) + " ";
         for (auto &pr : woke)
             acts.push_back({pr.second, '+'});
-        // two threads asleep on the same primitive: the order in which the
-        // kernel lets them through is not ours to choose -> stop the case
+        check_multi();
+    };
+
+    // schedule letter a..f: spurious return of the condition-variable wait of thread 0..5
+    bool any_spur = false;
+    auto spur = [&](int t) {
+        if (t >= n || !asleep_in_cv(t))
+        {
+            trace += std::to_string(t) + "~- ";
+            return;
+        }
+        bool waspend[MAXT];
         for (int u = 0; u < n; u++)
-            for (int v = u + 1; v < n; v++)
-                if (get_st(u) == RUNNING && get_st(v) == RUNNING)
-                {
-                    Slot a = get_slot(u), b = get_slot(v);
-                    auto cls = [](char k) { return k == 'R' ? 'L' : (k == 'w' || k == 'c' || k == 's') ? 'e' : k; };
-                    if (cls(a.hook) == cls(b.hook) && a.obj == b.obj)
-                        multipend = true;
-                }
+            waspend[u] = (get_st(u) == RUNNING);
+        if (!spur_wake(t))
+        {
+            hang = true;
+            return;
+        }
+        any_spur = true;
+        trace += std::to_string(t) + "~ ";
+        std::vector<std::pair<unsigned long, int>> woke;
+        for (int u = 0; u < n; u++)
+            if (waspend[u] && get_st(u) != RUNNING)
+                woke.push_back({get_slot(u).seq, u});
+        std::sort(woke.begin(), woke.end());
+        for (auto &pr : woke)
+        {
+            set_pending(pr.second, false);
+            trace += "+" + std::to_string(pr.second) + " ";
+            acts.push_back({pr.second, '+'});
+        }
+        check_multi();
     };
 
     size_t consumed = 0;
@@ -520,7 +756,10 @@ static void run_case(const std::vector<std::string> &w, hv::out &o)
     {
         if (hang || multipend)
             break;
-        grant(ch - '0');
+        if (ch >= 'a' && ch <= 'f')
+            spur(ch - 'a');
+        else
+            grant(ch - '0');
         consumed++;
     }
     trace += "| ";
@@ -556,8 +795,94 @@ static void run_case(const std::vector<std::string> &w, hv::out &o)
                 x.join();
         for (int t = 0; t < n; t++)
             obs += std::to_string(t) + ":" + read_log(t) + ";";
-        if (!deadlock)
+        if (!deadlock && c.ecase)
         {
+            obs += std::string("E") + (c.E->isset() ? "1" : "0") + ";S" + std::to_string(c.S->getvalue());
+            // ---- oracle: reference flag / counter replayed over the completed actions
+            std::vector<std::pair<int, char>> seq;
+            {
+                std::istringstream is(trace);
+                std::string tk;
+                std::vector<char> blockedAt(n, 0);
+                while (is >> tk)
+                {
+                    if (tk == "|") continue;
+                    if (tk[0] == '+') { int u = tk[1] - '0'; seq.push_back({u, blockedAt[u]}); continue; }
+                    int t = tk[0] - '0';
+                    if (tk[1] == '-' || tk[1] == '~') continue;
+                    if (tk.size() > 2 && tk[2] == '!') { blockedAt[t] = tk[1]; continue; }
+                    seq.push_back({t, tk[1]});
+                }
+            }
+            bool ref = false;
+            long refsv = 1;
+            std::vector<size_t> pc(n, 0);
+            std::vector<std::string> expect(n);
+            for (auto &ev : seq)
+            {
+                int t = ev.first;
+                char k = ev.second;
+                if (pc[t] >= c.prog[t].size()) { o.fail("trace has a point after the program of thread " + std::to_string(t) + " ended"); break; }
+                const Op &op = c.prog[t][pc[t]];
+                bool end = false;
+                switch (k)
+                {
+                case 'c': if (!ref) o.fail("event::wait() of thread " + std::to_string(t) + " returned although the event is not set (spurious wake-up got through)"); expect[t] += "e1,"; break;
+                case 'e': expect[t] += ref ? "e1," : "e0,"; if (!ref && op.v) o.fail("event::wait(1h) of thread " + std::to_string(t) + " returned although the event is not set"); break;
+                case 's': expect[t] += ref ? "n0," : "n1,"; ref = true; break;
+                case 'x': expect[t] += ref ? "r1," : "r0,"; ref = false; break;
+                case 'i': expect[t] += ref ? "i1," : "i0,"; end = true; break;
+                case 'a': if (refsv <= 0) o.fail("semaphore wait passed at value 0"); refsv--; end = true; break;
+                case 'b':
+                    if (op.k == 'p') refsv++;
+                    else if (op.k == 'y') { if (refsv > 0) refsv--; }
+                    else expect[t] += "v" + std::to_string(refsv) + ",";
+                    end = true;
+                    break;
+                case 'u': case 'f': case 't': case 'y': end = true; break;
+                default: break;
+                }
+                if (end) pc[t]++;
+            }
+            for (int t = 0; t < n; t++)
+                if (read_log(t) != expect[t])
+                    o.fail("thread " + std::to_string(t) + " observed `" + read_log(t) + "`, the reference event/semaphore says `" + expect[t] + "`");
+            if (c.E->isset() != ref) o.fail("final flag differs from the reference");
+            if (c.S->getvalue() != refsv) o.fail("final semaphore value differs from the reference");
+        }
+        else if (!deadlock)
+        {
+            // ---- oracle: every thread has finished — the system lock must be free
+            // (a probe thread takes and releases it; a leaked level would also
+            // poison every later case of this worker)
+            {
+                bool allzero = true;
+                for (int t = 0; t < n; t++)
+                    if (read_log(t).find("c0") == std::string::npos)
+                        allzero = false;
+                if (allzero)
+                {
+                    std::atomic<int> *ok = new std::atomic<int>(0);
+                    std::thread probe([ok]() { system_lock(); system_unlock(); ok->store(1); });
+                    double t0 = now_s();
+                    while (!ok->load() && now_s() - t0 < 3.0)
+                    {
+                        timespec ts = {0, 50000};
+                        nanosleep(&ts, nullptr);
+                    }
+                    if (ok->load())
+                    {
+                        probe.join();
+                        delete ok;
+                    }
+                    else
+                    {
+                        probe.detach();
+                        o.fail("the system lock is still held after every thread finished with lock count 0 (a nested acquisition was not undone)");
+                        worker_must_exit = true;
+                    }
+                }
+            }
             obs += "wq" + std::to_string(c.head->size()) + ";q";
             std::vector<long> rest;
             while (c.q->size())
@@ -588,7 +913,7 @@ static void run_case(const std::vector<std::string> &w, hv::out &o)
                     if (tk == "|") continue;
                     if (tk[0] == '+') { int u = tk[1] - '0'; pts[u].push_back(blockedAt[u]); pts[u].push_back('#'); continue; }
                     int t = tk[0] - '0';
-                    if (tk[1] == '-') continue;
+                    if (tk[1] == '-' || tk[1] == '~') continue;
                     if (tk.size() > 2 && tk[2] == '!') { blockedAt[t] = tk[1]; continue; }
                     pts[t].push_back(tk[1]); pts[t].push_back('#');
                 }
@@ -604,7 +929,7 @@ static void run_case(const std::vector<std::string> &w, hv::out &o)
                     if (tk == "|") continue;
                     if (tk[0] == '+') { int u = tk[1] - '0'; seq.push_back({u, blockedAt[u]}); continue; }
                     int t = tk[0] - '0';
-                    if (tk[1] == '-') continue;
+                    if (tk[1] == '-' || tk[1] == '~') continue;
                     if (tk.size() > 2 && tk[2] == '!') { blockedAt[t] = tk[1]; continue; }
                     seq.push_back({t, tk[1]});
                 }
@@ -690,7 +1015,7 @@ static void run_case(const std::vector<std::string> &w, hv::out &o)
             for (int t = 0; t < n; t++)
             {
                 Slot s = get_slot(t);
-                if (s.st == RUNNING && (s.hook == 'c' || s.hook == 'w') && was_signalled(s.obj))
+                if (!c.ecase && s.st == RUNNING && (s.hook == 'c' || s.hook == 'w') && was_signalled(s.obj))
                     o.fail("lost wake-up: thread " + std::to_string(t) + " sleeps in event.wait although its event was signalled");
             }
             o.tag("deadlock");
@@ -707,6 +1032,7 @@ static void run_case(const std::vector<std::string> &w, hv::out &o)
     if (trace.find('+') != std::string::npos) o.tag("handoff");
     if (trace.find("c!") != std::string::npos) o.tag("cv-sleep");
     if (multipend) o.tag("multipend");
+    if (any_spur) o.tag("spurious-return");
     {
         // wake raced with the park: a signal step happened before the waiter reached its cv check
         size_t ps = trace.find('s'), pc_ = trace.find('c');
@@ -726,7 +1052,7 @@ static void run_case(const std::vector<std::string> &w, hv::out &o)
         for (int t = 0; t < n; t++)
         {
             Slot sl = get_slot(t);
-            if (sl.st == RUNNING && !(sl.hook == 'c' && sl.cnt == 0))
+            if (sl.st == RUNNING && !((sl.hook == 'c' || sl.hook == 'e') && sl.cnt == 0))
                 only_sleepers = false;
         }
         static int leaked = 0;
@@ -738,6 +1064,8 @@ static void run_case(const std::vector<std::string> &w, hv::out &o)
     }
     delete c.head;
     delete c.q;
+    delete c.E;
+    delete c.S;
     delete &th;
     delete &c;
 }
@@ -921,6 +1249,9 @@ static int steps_of(const std::string &tok, int waiters)
     case 'O': return 6;
     case 'A': return 2 + 4 * waiters;
     case 'P': case 'G': case 'Z': return 2;
+    case 'E': case 'T': case 'N': return 3;
+    case 'C': return 2;
+    case 'I': case 'w': case 'p': case 'y': case 'v': return 1;
     }
     return 0;
 }
@@ -948,9 +1279,10 @@ static std::vector<int> step_counts(const std::string &progs)
     return r;
 }
 
+static const char *g_kind = "c"; // "e": the programs run on the shared event / semaphore
 static void emit_case(const std::string &progs, const std::string &init, const std::string &sched)
 {
-    printf("c %s %s %s\n", progs.c_str(), init.empty() ? "-" : init.c_str(), sched.empty() ? "-" : sched.c_str());
+    printf("%s %s %s %s\n", g_kind, progs.c_str(), init.empty() ? "-" : init.c_str(), sched.empty() ? "-" : sched.c_str());
 }
 
 // all interleavings (multiset permutations) of the threads' points
@@ -1081,9 +1413,65 @@ static std::string rand_prog_set(hv::rng &r, std::string &init)
     return s;
 }
 
+// threads of a program set that contain a wait op
+static std::vector<int> waiter_threads(const std::string &progs)
+{
+    std::vector<int> w;
+    auto ps = split(progs, '/');
+    for (size_t t = 0; t < ps.size(); t++)
+        if (ps[t].find('W') != std::string::npos || ps[t].find('E') != std::string::npos || ps[t].find('T') != std::string::npos)
+            w.push_back((int)t);
+    return w;
+}
+// insert k spurious-return letters (for waiter threads) at random positions
+static std::string with_spurs(hv::rng &r, std::string sched, const std::vector<int> &w, int k)
+{
+    if (w.empty())
+        return sched;
+    for (int i = 0; i < k; i++)
+    {
+        size_t pos = (size_t)r.below(sched.size() + 1);
+        sched.insert(sched.begin() + pos, (char)('a' + w[r.below(w.size())]));
+    }
+    return sched;
+}
+// every interleaving of a program set, each with spurious returns inserted
+static void all_perms_spur(hv::rng &r, const std::string &progs, std::vector<int> left, std::string &cur, long &count, int every, int variants)
+{
+    bool any = false;
+    for (size_t t = 0; t < left.size(); t++)
+        if (left[t] > 0)
+        {
+            any = true;
+            left[t]--;
+            cur.push_back('0' + t);
+            all_perms_spur(r, progs, left, cur, count, every, variants);
+            cur.pop_back();
+            left[t]++;
+        }
+    if (!any && (count++ % every) == 0)
+        for (int v = 0; v < variants; v++)
+            emit_case(progs, "", with_spurs(r, cur, waiter_threads(progs), 1 + (int)r.below(2)));
+}
+
 static void gen(hv::rng &r, const std::string &tier)
 {
     bool thorough = tier == "thorough";
+    // --- spurious returns of the condition-variable wait (schedule letters a..f)
+    for (int k = 0; k <= 6; k++) // the waiter sleeps; one spurious return between any two steps of the waker
+        emit_case("W0/O5", "", "00000" + std::string(k, '1') + "a" + std::string(6 - k, '1'));
+    emit_case("W0/O5", "", "00000aa1a1a1a1a1a1a");       // a spurious return after every step
+    emit_case("W0/O5", "", "0000a0a1111110");            // not yet / no longer asleep: no effect
+    emit_case("W0/O5", "", "00000a");                    // only a spurious return, then the rest runs
+    emit_case("W0/W0/A9", "", "0000011111ab2b2a2222b2a222");
+    emit_case("W0/W1/O5,O6", "", "0000011111ba2a2b22222a22b2");
+    emit_case("W0/W0/W0/A9", "", "000001111122222abc3c3b3a3333");
+    emit_case("W0,W0/O5,O6", "", "00000a111111a00000a111111");
+    {
+        std::string cur;
+        long count = 0;
+        all_perms_spur(r, "W0/O5", step_counts("W0/O5"), cur, count, thorough ? 1 : 4, thorough ? 2 : 1);
+    }
     // directed
     emit_case("L,U", "", "00");
     emit_case("L,L,U,U/L,U", "", "0010111");          // re-entry, blocked attempt, hand-off at depth 0 only
@@ -1114,6 +1502,95 @@ static void gen(hv::rng &r, const std::string &tier)
         exhaustive("L,L,S,R,U,U/L,L,U,U", "");
         exhaustive("P1,G/P2,G/Z", "7");
     }
+    // --- the shared event (wait / wait(timeout) / signal / reset / isset) and semaphore
+    g_kind = "e";
+    emit_case("E/N", "", "0011101");
+    emit_case("E/N/C", "", "0011a12");
+    emit_case("T0/N,C", "", "000111111");
+    emit_case("T1,C/N/T0", "", "0022200a111");
+    emit_case("E,I/N,I", "", "00a11a1a");
+    emit_case("w,v,p/y,v,p,v", "", "0001111");
+    emit_case("w,p/w,p", "", "0101");                 // binary semaphore as a mutex: the second wait blocks until the post
+    emit_case("I/N", "", "1110");                     // isset after a complete signal of another thread
+    exhaustive("E/N", "");
+    exhaustive("T0/N", "");
+    exhaustive("T1/N", "");
+    exhaustive("E/N,C", "");
+    exhaustive("I/N,C", "");
+    if (thorough)
+    {
+        exhaustive("E/N/C", "");
+        exhaustive("w,p/w,p/y,v,p", "");
+    }
+    else
+        for (const char *pg : {"E/N/C", "w,p/w,p/y,v,p"})
+            for (int k = 0; k < 60; k++)
+                emit_case(pg, "", rand_sched(r, step_counts(pg), (int)r.below(3)));
+    {
+        std::string cur;
+        long count = 0;
+        all_perms_spur(r, "E/N", step_counts("E/N"), cur, count, 1, 2);
+        count = 0;
+        all_perms_spur(r, "T1/N,C,N", step_counts("T1/N,C,N"), cur, count, thorough ? 1 : 3, 1);
+    }
+    for (int i = 0; i < (thorough ? 1500 : 150); i++)
+    {
+        int n = (int)r.range(2, 4);
+        std::vector<std::string> p(n);
+        auto add = [&](int t, const std::string &x) { p[t] += (p[t].empty() ? "" : ",") + x; };
+        for (int t = 0; t < n; t++)
+        {
+            int k = (int)r.range(1, 3);
+            for (int j = 0; j < k; j++)
+            {
+                int c = (int)r.below(12);
+                if (c < 2) add(t, "E");
+                else if (c < 3) add(t, "T0");
+                else if (c < 4) add(t, "T1");
+                else if (c < 6) add(t, "N");
+                else if (c < 7) add(t, "C");
+                else if (c < 8) add(t, "I");
+                else if (c < 9) { add(t, "w"); add(t, "p"); }
+                else if (c < 10) add(t, "y");
+                else if (c < 11) add(t, "v");
+                else add(t, "p");
+            }
+        }
+        add(n - 1, "N"); // the last thread sets the event: waiters can finish
+        std::string progs;
+        for (int t = 0; t < n; t++) progs += (t ? "/" : "") + p[t];
+        auto cnt = step_counts(progs);
+        auto wt = waiter_threads(progs);
+        for (int k = 0; k < 3; k++)
+        {
+            std::string sc = rand_sched(r, cnt, (int)r.below(3));
+            if (!wt.empty() && r.chance(50))
+                sc = with_spurs(r, sc, wt, 1 + (int)r.below(3));
+            emit_case(progs, "", sc);
+        }
+    }
+    g_kind = "c";
+    // --- schedules where a mutation could hide
+    exhaustive("L,L,L,S,R,U,U,U/L,U", "");               // depth 3, save/restore in the middle, a contender at every point
+    if (thorough)
+        exhaustive("L,L,L,S,R,U,U,U/L,L,U,U", "");
+    for (const char *pg : {"L,L,L,S,R,U,U,U/L,U/L,L,S,R,U,U", "L,L,L,U,U,U/L,L,L,S,R,U,U,U/L,U"})
+        for (int k = 0; k < (thorough ? 800 : 80); k++)
+            emit_case(pg, "", rand_sched(r, step_counts(pg), (int)r.below(3)));
+    for (const char *pg : {"W0/W0/W0/A9", "W0/W1/W0/A9", "W0/W0/W0/O5,A9"})  // unwait_all with 3 waiters
+    {
+        auto cnt = step_counts(pg);
+        auto wt = waiter_threads(pg);
+        for (int k = 0; k < (thorough ? 1000 : 90); k++)
+        {
+            std::string sc = rand_sched(r, cnt, (int)r.below(3));
+            if (k % 3 == 0)
+                sc = with_spurs(r, sc, wt, 1 + (int)r.below(3));
+            emit_case(pg, "", sc);
+        }
+    }
+    for (int k = 0; k < (thorough ? 1500 : 150); k++)      // two producers + two consumers
+        emit_case("P1,P2/P3,P4/G,G/G,Z,G", "7,8,9,10", rand_sched(r, step_counts("P1,P2/P3,P4/G,G/G,Z,G"), (int)r.below(3)));
     // random programs, random schedules
     int nprog = thorough ? 2500 : 220;
     for (int i = 0; i < nprog; i++)
@@ -1121,15 +1598,27 @@ static void gen(hv::rng &r, const std::string &tier)
         std::string init, progs = rand_prog_set(r, init);
         auto cnt = step_counts(progs);
         int ns = thorough ? 6 : 4;
+        auto wt = waiter_threads(progs);
         for (int k = 0; k < ns; k++)
-            emit_case(progs, init, rand_sched(r, cnt, (int)r.below(3)));
+        {
+            std::string sc = rand_sched(r, cnt, (int)r.below(3));
+            if (!wt.empty() && r.chance(50))
+                sc = with_spurs(r, sc, wt, 1 + (int)r.below(3));
+            emit_case(progs, init, sc);
+        }
     }
     // the two/three-waiter scenarios with many random schedules
     for (const char *pg : {"W0/W0/A9", "W0/W1/O5,O6", "W0/W0/O5/O6", "W0/O5/A6", "W0,W0/O5,A6"})
     {
         auto cnt = step_counts(pg);
+        auto wt = waiter_threads(pg);
         for (int k = 0; k < (thorough ? 1500 : 120); k++)
-            emit_case(pg, "", rand_sched(r, cnt, (int)r.below(3)));
+        {
+            std::string sc = rand_sched(r, cnt, (int)r.below(3));
+            if (k % 2)
+                sc = with_spurs(r, sc, wt, 1 + (int)r.below(3));
+            emit_case(pg, "", sc);
+        }
     }
 }
 
@@ -1143,7 +1632,10 @@ int main(int argc, char **argv)
         return 0;
     }
     if (argc >= 2 && !strcmp(argv[1], "run"))
+    {
+        init_real_broadcast();
         return supervise();
+    }
     fprintf(stderr, "usage: %s gen <seed> <tier> | run\n", argv[0]);
     return 2;
 }
